@@ -74,6 +74,15 @@ func TestCheck(t *testing.T) {
 	gwDesc := describe(gw.schemas["s1"], gw.schemas["s2"])
 	gw.cancel()
 
+	// Monitors 3 and 4 judge liveness in this process (stuck versus slow): they
+	// run first, on a quiet process, before the child processes of monitor 1
+	// load the machine.
+	if os.Getenv("C15_SKIP_M3") == "" && onlySection(run, offM3) {
+		runM3(run)
+	}
+	if os.Getenv("C15_SKIP_M4") == "" && onlySection(run, offM4) {
+		runM4(run)
+	}
 	var wg sync.WaitGroup
 	if os.Getenv("C15_SKIP_M1") == "" {
 		wg.Add(1)
@@ -83,7 +92,7 @@ func TestCheck(t *testing.T) {
 			if onlySection(run, offM1) {
 				n := run.N(2400, 120000)
 				nb := (n + m1Batch - 1) / m1Batch
-				section(run, offM1, nb, maxPar, func(b int) {
+				section(run, offM1, nb, run.N(maxPar, 2), func(b int) { // thorough: the driver's shards provide the parallelism
 					from, to := b*m1Batch, (b+1)*m1Batch
 					if to > n {
 						to = n
@@ -108,15 +117,9 @@ func TestCheck(t *testing.T) {
 					}
 				}
 				groups = append([][]int{shared}, groups...)
-				section(run, offDeep, len(groups), deepPar, func(gi int) { runDeepGroup(run, gi, groups[gi], ins) })
+				section(run, offDeep, len(groups), run.N(deepPar, 1), func(gi int) { runDeepGroup(run, gi, groups[gi], ins) })
 			}
 		}()
-	}
-	if os.Getenv("C15_SKIP_M3") == "" && onlySection(run, offM3) {
-		runM3(run)
-	}
-	if os.Getenv("C15_SKIP_M4") == "" && onlySection(run, offM4) {
-		runM4(run)
 	}
 	wg.Wait()
 }
